@@ -102,13 +102,20 @@ class Oracles:
         func = None
         bad = op.get("bad", [])
         if "func" in bad:
-            which = op.get("func_kind", 0) % 4
             calls = rm.calls
 
             def plain(*a: Any, **k: Any) -> None:
                 calls.append("called")  # type: ignore[arg-type]
             import functools
-            func = [plain, lambda *a, **k: calls.append("called"), functools.partial(plain, 1), len][which]  # type: ignore[list-item]
+
+            async def real(*a: Any, **k: Any) -> None:
+                calls.append("called")  # type: ignore[arg-type]
+
+            @functools.wraps(real)
+            def wrapped(*a: Any, **k: Any) -> Any:     # a plain function around a coroutine function: not a coroutine function
+                return real(*a, **k)
+            which = op.get("func_kind", 0) % 5
+            func = [plain, lambda *a, **k: calls.append("called"), functools.partial(plain, 1), len, wrapped][which]  # type: ignore[list-item]
             causes.add("NotCoroutineFunction")
         if "nc" in bad and rm.kind != "apply":
             rm.spec["nc"] = -(op.get("nc_val", 0) % 3)
@@ -705,8 +712,12 @@ class Oracles:
                         tm.reg_seen = new is not None
                     elif new is None:
                         if not (tm.may_forget or tm.forgotten or pm.closed or self.closing_now(pm)):
-                            w.fail({"C03", "C13", "C02"}, "reg/task-vanished", f"{pm.name}#{tid} was {old} ({where})")
-                        tm.forgotten = True
+                            props = {"C03", "C13", "C02"} | ({"C08"} if pm.closing else set())
+                            w.fail(props, "reg/task-vanished", f"{pm.name}#{tid} was {old} ({where})")
+                            # the model does NOT adopt the loss: the task keeps the state the harness events give it, so
+                            # the answers of cancel()/stop() about it are judged against what should have been
+                        else:
+                            tm.forgotten = True
                     elif (old, new) not in (("R", "C"), ("R", "E"), ("C", "E")):
                         w.fail({"C03"}, "reg/illegal-transition", f"{pm.name}#{tid} {old}->{new}")
                     tm.reg = new
@@ -1020,6 +1031,14 @@ class Oracles:
                 if not rm.cancelled:
                     w.fail(C, "final/spawner-never-finished", rid)
             elif not sp.cancelled() and sp.exception() is not None:
+                if self.is_injected(pm, sp.exception()) and getattr(rm, "iter_failed", None) is not None:
+                    # the user's argument iterable raised: what was pulled before must have been processed, nothing more is owed
+                    for c in rm.calls:
+                        if not self.args_ok(rm, c):
+                            w.fail(C, "call/wrong-arguments", f"{rid}[{c.idx}]")
+                    if not rm.cancelled and self.accounted(pm, rm) != rm.iter_failed:  # type: ignore[attr-defined]
+                        w.fail(C, "final/number-of-invocations", f"{rid}: {self.accounted(pm, rm)} invocations, iterator failed at {rm.iter_failed}")  # type: ignore[attr-defined]
+                    return
                 w.fail(C | {"C12"}, "final/spawner-died", f"{rid}: {type(sp.exception()).__name__}: {sp.exception()}")
                 return
         # arguments (identity) -- checked for every call made, cancelled or not
